@@ -133,13 +133,18 @@ func TestVerifC14Seq(t *testing.T) {
 	if s := c14sPeerIDs; len(s[0]) == 0 || s[0][len(s[0])-1] != s[1][len(s[1])-1] || s[0][len(s[0])-1] == s[2][len(s[2])-1] {
 		r.Note("universe: peer IDs do not have the intended last bytes")
 	}
-	st := &c14sStats{classes: map[string]struct{}{}}
+	st := &c14sStats{classes: map[string]map[string]any{}}
 	var depths []string
+	type done struct {
+		name string
+		res  *seqmc.Stats
+	}
+	var all []done
 	for _, s := range c14sSearches() {
 		sp := s.spec(t, st)
 		res := seqmc.Run(sp)
-		seqmc.Fill(r, sp.Name, res)
-		depths = append(depths, fmt.Sprintf("%s: %d", s.name, res.DepthDone))
+		all = append(all, done{sp.Name, res})
+		depths = append(depths, fmt.Sprintf("%s low=%d: %d", s.name, s.cfg.low, res.DepthDone))
 	}
 	r.Bounds["depth_completed"] = depths
 	for i, n := range c14sOutcomeNames {
@@ -154,8 +159,18 @@ func TestVerifC14Seq(t *testing.T) {
 		cls = append(cls, k)
 	}
 	sort.Strings(cls)
-	for i := 0; i < len(cls) && i < 3; i++ {
-		r.Sample(map[string]any{"trim_class": cls[i*len(cls)/3]})
+	// samples (at most 6 are kept): two trim situations with the history that reached them, then one history
+	// of each of the first searches
+	for i := 0; i < 2 && len(cls) > 0; i++ {
+		r.Sample(st.classes[cls[(2*i+1)*len(cls)/4]])
+	}
+	for i := len(all) - 1; i >= 0 && i >= len(all)-4; i-- {
+		if n := len(all[i].res.Samples); n > 0 {
+			r.Sample(map[string]any{"search": all[i].name, "history": all[i].res.Samples[n-1]})
+		}
+	}
+	for _, d := range all {
+		seqmc.Fill(r, d.name, d.res)
 	}
 	r.Note("distinct_nontrivial = number of distinct trim situations with count > low (kind, low, count, per peer: protected/grace/eligible, #conns, value rank, #closed), peer names abstracted: %d", len(cls))
 	r.Flush()
@@ -190,7 +205,7 @@ func c14sReplay(t *testing.T, path string) {
 		}
 	}
 	r := vrep.New("C14", "seq")
-	st := &c14sStats{classes: map[string]struct{}{}}
+	st := &c14sStats{classes: map[string]map[string]any{}}
 	synctest.Test(t, func(*testing.T) {
 		in := c14sNew(cfg, st, prefix, true)
 		defer in.close()
